@@ -41,6 +41,7 @@ type vC13SCase struct {
 	RawLeaves bool   `json:"raw_leaves"`
 	CidV      int    `json:"cid_version"`
 	Shard     bool   `json:"shard"` // the sharding DAG service instead of the single one (same importer stream)
+	Multipart bool   `json:"multipart,omitempty"` // Adder.FromMultipart instead of FromFiles
 }
 
 const vC13SMaxSize = 600000
@@ -296,6 +297,7 @@ func vC13SGen(r *vRand, i int) vC13SCase {
 	c.RawLeaves = r.chance(50)
 	c.CidV = r.intn(2)
 	c.Shard = r.chance(15)
+	c.Multipart = r.chance(25)
 	k, ml := c.Chunk, c.MaxLinks
 	// thresholds in chunks: a full node, a full tree of depth 2, 3, 4 (balanced); a full leaf layer, 1, 2, 3 full layers (trickle)
 	var thr []int
@@ -373,7 +375,7 @@ func TestVerifC13Shape(t *testing.T) {
 		}
 		fc := vC13FCase{Kind: "shape", Entries: []vC13FEntry{{Path: "single.dat", Size: c.Size, Seed: c.Seed}}, TopFile: true,
 			Chunker: fmt.Sprintf("size-%d", c.Chunk), Layout: c.Layout, RawLeaves: c.RawLeaves, CidV: c.CidV, Hash: "sha2-256",
-			Rmin: 1, Rmax: 1, Limit: 1 << 28, Allocs: [][]int{{1}}}
+			Multipart: c.Multipart, Rmin: 1, Rmax: 1, Limit: 1 << 28, Allocs: [][]int{{1}}}
 		tree, treeRoot, err := vC13WriteTree(base, &fc)
 		if err != nil {
 			t.Fatal(err)
@@ -445,6 +447,9 @@ func TestVerifC13Shape(t *testing.T) {
 		}
 		if c.Shard {
 			out.count("shape:sharded")
+		}
+		if c.Multipart {
+			out.count("shape:multipart")
 		}
 		out.add(term, c, map[string]interface{}{"blocks": len(blocks), "leaves": nleaves, "inner": ninner, "root": rootID, "rsize": rsize,
 			"flags": flags, "err": fmt.Sprint(run.err)}, ninner >= 1)
